@@ -467,7 +467,11 @@ std::string solver_case(const Args& a, long i, const std::string& folder) {
     std::vector<cell_ptr> cells; std::vector<std::shared_ptr<cell_type_parameters>> cts; double emin = INFINITY, emax = 0;
     double dirv[3] = {g.normal(), g.normal(), g.normal()}; { double n = std::sqrt(dirv[0] * dirv[0] + dirv[1] * dirv[1] + dirv[2] * dirv[2]); for (auto& x : dirv) x /= n; }
     double along = -g.uni(0, 1) * ncell * 2.2 * r0; double dt_min = INFINITY, mnode_min = INFINITY;
-    const int k0_cell = scenario == 9 ? g.range(0, ncell - 1) : -1; const int below_cell = (scenario == 4 || scenario == 5) ? g.range(0, ncell - 1) : -1;
+    // 40 % of the division runs: the youngest cell (largest id, last of the list) starts just below its minimum volume and is removed at the end of
+    // the first iteration, the first cell is an epithelial cell that grows past its division volume a few iterations later: the ids of the daughters
+    // must be new although the largest id of the population has just left it
+    const bool young_removed = division_run && ncell >= 2 && g.coin(0.4);
+    const int k0_cell = scenario == 9 ? g.range(0, ncell - 1) : -1; const int below_cell = young_removed ? ncell - 1 : (scenario == 4 || scenario == 5) ? g.range(0, ncell - 1) : -1;
     const double growth_sign_run = scenario == 8 ? -1 : 0;
     struct CellPlan { int cls; double r, K, V0; };
     std::vector<CellPlan> plan;
@@ -476,6 +480,7 @@ std::string solver_case(const Args& a, long i, const std::string& folder) {
         const double gap = r * g.uni(2.6, 4.0); along += gap; gen::translate(m, dirv[0] * along, dirv[1] * along, dirv[2] * along); along += gap;
         for (auto& t : m.T) for (int e = 0; e < 3; e++) { auto& A = m.P[t[e]]; auto& B = m.P[t[(e + 1) % 3]]; double d = std::sqrt((A[0] - B[0]) * (A[0] - B[0]) + (A[1] - B[1]) * (A[1] - B[1]) + (A[2] - B[2]) * (A[2] - B[2])); emin = std::min(emin, d); emax = std::max(emax, d); }
         int cls; { double u = g.uni(); cls = u < 0.45 ? 0 : u < 0.6 ? 2 : u < 0.75 ? 3 : u < 0.87 ? 4 : 1; } if (k == k0_cell && cls == 1) cls = g.coin() ? 2 : 4;
+        if (young_removed && k == 0) cls = 0; if (young_removed && k == ncell - 1 && cls == 1) cls = 0;
         std::shared_ptr<cell_type_parameters> ct;
         const bool share = k > 0 && k != k0_cell && k - 1 != k0_cell && k != below_cell && k - 1 != below_cell && plan[k - 1].cls == cls && g.coin(0.25);
         if (share) ct = cts[k - 1]; else { ct = gen::default_cell_type(3, (short)cls); ct->name_ = std::string(CLSNAME[cls]) + std::to_string(k); }
@@ -499,7 +504,9 @@ std::string solver_case(const Args& a, long i, const std::string& folder) {
             ct->min_vol_ = mv == 0 ? 0.0 : mv == 1 ? V0 * g.uni(0.25, 0.6) : V0 * (1 - g.logu(1e-3, 0.12));
             if (division_run) ct->min_vol_ = 0.0;
             if (k == below_cell) ct->min_vol_ = V0 * (1 + g.logu(1e-4, 0.05));
+            if (young_removed && k == 0) { ct->avg_growth_rate_ = g.uni(0.3, 0.6) * V0; ct->std_growth_rate_ = 0; }
             ct->avg_division_vol_ = (division_run && cls == 0) ? V0 * g.uni(0.6, 1.05) : (cls == 0 || g.coin() ? INFINITY : 0.0); ct->std_division_vol_ = (division_run && g.coin()) ? 0.05 * V0 : 0.0;
+            if (young_removed && k == 0) { ct->avg_division_vol_ = V0 * g.uni(1.01, 1.04); ct->std_division_vol_ = 0; }
             ct->area_elasticity_modulus_ = g.coin() ? 0.0 : 1e-15; ct->target_isoperimetric_ratio_ = 150; ct->surface_coupling_max_curvature_ = 1e7;
         }
         // stability of the semi-implicit Euler step: breathing mode omega^2 = 9 K / (rho r^2), membrane modes ~ 16 gamma / m_node
@@ -517,6 +524,7 @@ std::string solver_case(const Args& a, long i, const std::string& folder) {
     sp.time_step_ = dt; sp.damping_coefficient_ = mnode_min / dt * g.logu(1e-3, 1e-1); sp.simulation_duration_ = dt * (n_iter + 10); sp.sampling_period_ = dt * (g.coin(0.2) ? 7.5 : 1e6);
     // every edge inside [l_min, 3 l_min] with the largest possible margin on both sides
     sp.min_edge_len_ = std::sqrt(emin * emax / 3.0); sp.contact_cutoff_adhesion_ = 0.05 * r0; sp.contact_cutoff_repulsion_ = 0.05 * r0;
+    if (young_removed) L.bin("scenario:youngest_cell_removed_then_division");
     L.bin(std::string("scenario:") + (scenario <= 3 ? "generic" : scenario <= 5 ? "one_cell_starts_below_min_vol" : scenario <= 7 ? "forced_removal" : scenario == 8 ? "stiff_cells_shrinking" : "K_zero_on_a_cell_with_forces"));
     L.bin("cells_per_run:" + std::to_string(ncell)); L.bin("icosphere_level:" + std::to_string(level)); if (division_run) L.bin("division_enabled_runs");
     // ---- run
